@@ -93,6 +93,9 @@ def concretise(r: ObResult) -> dict[str, Any] | None:
 	return out
 
 
+TWIN_ERRORS: list[str] = []
+
+
 def twin_search(c: Contract, gen: Callable[[random.Random, str], Iterator[dict[str, Any]]], seed: int, tier: str, budget_s: float, max_cases: int) -> tuple[int, dict[str, Any] | None, NativeOutcome | None, int]:
 	rnd = random.Random(seed)
 	t0 = time.time()
@@ -109,6 +112,8 @@ def twin_search(c: Contract, gen: Callable[[random.Random, str], Iterator[dict[s
 			return n, inputs, out, nontrivial
 		if out.status == 'ok':
 			nontrivial += 1
+		elif out.status == 'error':
+			TWIN_ERRORS.append(f'{c.qualname}: {out.detail[:200]}')
 	return n, None, None, nontrivial
 
 
@@ -168,12 +173,20 @@ def _main(prop: str, tier: str, seed: int, a: Any) -> int:
 			known_lines.append(f'KNOWN-FINDING: property={prop} {kf["id"]}: {kf["what"]}')
 			active_known[kf['id']] = kf
 	saved_requires: dict[tuple[str, str], list[str]] = {}
+	saved_native: dict[tuple[str, str], list[str]] = {}
 	for c in contracts:
 		for kid in c.known:
 			kf = active_known.get(kid)
 			if kf and kf.get('exclude'):
-				saved_requires.setdefault(c.key, list(c.requires))
-				c.requires = c.requires + [f'not ({kf["exclude"]})']
+				ex = kf['exclude'].get(c.qualname) if isinstance(kf['exclude'], dict) else kf['exclude']
+				if not ex:
+					continue
+				if kf.get('exclude_native_only'):
+					saved_native.setdefault(c.key, list(c.native_requires))
+					c.native_requires = c.native_requires + [f'not ({ex})']
+				else:
+					saved_requires.setdefault(c.key, list(c.requires))
+					c.requires = c.requires + [f'not ({ex})']
 	z3_ms = 10000 if tier == 'quick' else 30000
 	cvc5_ms = 20000 if tier == 'quick' else 60000
 	rep = run(prop, contracts, lemmas, z3_ms, cvc5_ms)
@@ -256,6 +269,8 @@ def _main(prop: str, tier: str, seed: int, a: Any) -> int:
 	for c in contracts:
 		if c.key in saved_requires:
 			c.requires = saved_requires[c.key]
+		if c.key in saved_native:
+			c.native_requires = saved_native[c.key]
 	# ---- filter violations that are listed known findings
 	reported: list[Violation] = []
 	for v in violations:
@@ -327,6 +342,8 @@ def _main(prop: str, tier: str, seed: int, a: Any) -> int:
 	if a.verbose or undecided:
 		for u in undecided[:40]:
 			print('  undecided:', u[:400])
+	if TWIN_ERRORS:
+		machinery.append(f'{len(TWIN_ERRORS)} bounded-twin cases could not be evaluated natively, e.g. {TWIN_ERRORS[0]}')
 	for m in machinery:
 		print('MACHINERY-FAULT:', m[:600])
 	for line in vio_lines:
